@@ -341,10 +341,11 @@ def closes_generics(toks, i):
 # ---------------------------------------------------------------------------------------------------------- scan
 
 class Site:
-    __slots__ = ("file", "fn", "kind", "expr", "n", "line")
+    __slots__ = ("file", "fn", "kind", "expr", "n", "line", "at", "fn_close", "guards")
 
-    def __init__(self, file, fn, kind, expr, line):
+    def __init__(self, file, fn, kind, expr, line, at=-1, fn_close=-1):
         self.file, self.fn, self.kind, self.expr, self.n, self.line = file, fn, kind, expr, 0, line
+        self.at, self.fn_close, self.guards = at, fn_close, []
 
     def key(self):
         return (self.file, self.fn, self.kind, self.expr, self.n)
@@ -461,7 +462,8 @@ def scan_file(rel, src):
         return n - 1
 
     def emit(kind, lo, hi, at):
-        sites.append(Site(rel, fn_name(), kind, render(toks[lo:hi]), toks[at].line))
+        fn_closes = [c for c, k, _ in scopes if k == "fn"]
+        sites.append(Site(rel, fn_name(), kind, render(toks[lo:hi]), toks[at].line, at, fn_closes[-1] if fn_closes else -1))
 
     i = 0
     while i < n:
@@ -662,7 +664,260 @@ def scan_file(rel, src):
         k = (s.fn, s.kind, s.expr)
         s.n = seen.get(k, 0)
         seen[k] = s.n + 1
+    find_guards(toks, sites)
     return sites
+
+
+# ---------------------------------------------------------------------------------------------------------- guards
+
+GUARD_STOP = {"self", "Self", "as", "mut", "usize", "u8", "u16", "u32", "u64", "u128", "i8", "i16", "i32", "i64", "i128",
+              "MAX", "MIN", "is_empty", "try_into_usize", "unwrap", "clone"}
+DIVERGE = {"fail", "return", "break", "continue", "bail", "panic", "unreachable"}
+ASSIGN = {"=", "+=", "-=", "*=", "/=", "<<=", ">>="}
+
+
+def idents_of(text):
+    """the variables / fields a normalised expression mentions: identifiers that are not called (`x.len()`, `i64::from(..)`),
+    not a path prefix (`i32::`), not a type or a keyword-like word"""
+    out = set()
+    for m in re.finditer(r"[A-Za-z_][A-Za-z0-9_]*", text):
+        w = m.group(0)
+        rest = text[m.end():]
+        if w in GUARD_STOP or rest.startswith("(") or rest.startswith("::") or rest.startswith("!"):
+            continue
+        out.add(w)
+    return out
+
+
+def find_guards(toks, sites):
+    """For every site: the comparisons of the SAME function that syntactically dominate it (Site.guards, normalised texts):
+
+        if C          an earlier statement `if C { fail!(..) | return .. | break | continue }` without `else`, in a block that
+                      encloses the site: the site is reached only with C false
+        while C       an earlier statement `while C { .. }` (no `break` inside) in an enclosing block: C is false behind it
+        assert C      an earlier statement `assert!(C ..)` in an enclosing block
+        in-if C       the site lies in the then-block of `if C { .. }` (`else if` too)       C holds at the site
+        in-while C    the site lies in the body of `while C { .. }`
+        in-else C     the site lies in the else part of `if C { .. } else ..` (a later condition of the chain, a later
+                      block, the final else block): C is false at the site
+        arm C         the site lies in the match arm `pat if C => ..`
+
+    and no identifier the comparison shares with the site is assigned (`x = `, `x += `, `let x`) between the comparison and
+    the site.  Purely syntactic: no types, no aliasing, no knowledge of what `fail!` expands to beyond its name."""
+    n = len(toks)
+    opener = {}               # index of a closing bracket -> its opener, and the reverse
+    closer = {}
+    stack = []
+    encl = [None] * n         # innermost open bracket index at each token
+    for i, t in enumerate(toks):
+        if t.kind == "punct" and t.text in ("(", "[", "{"):
+            encl[i] = stack[-1] if stack else None
+            stack.append(i)
+        elif t.kind == "punct" and t.text in (")", "]", "}"):
+            if stack:
+                o = stack.pop()
+                opener[i], closer[o] = o, i
+            encl[i] = stack[-1] if stack else None
+        else:
+            encl[i] = stack[-1] if stack else None
+
+    def stmt_start(i):
+        return i > 0 and toks[i - 1].kind == "punct" and toks[i - 1].text in ("{", "}", ";")
+
+    def cond_until_brace(i):
+        """tokens after toks[i] (`if` / `while`) up to the `{` that opens its block → (cond tokens, index of `{`)"""
+        j = i + 1
+        while j < n:
+            t = toks[j]
+            if t.kind == "punct" and t.text in ("(", "["):
+                j = closer.get(j, n)
+            elif t.kind == "punct" and t.text == "{":
+                return toks[i + 1:j], j
+            elif t.kind == "punct" and t.text in (";", "}"):
+                return None, -1
+            j += 1
+        return None, -1
+
+    def diverges(o):
+        c = closer.get(o)
+        if c is None or c <= o + 1:
+            return False
+        if not (toks[o + 1].kind == "ident" and toks[o + 1].text in DIVERGE):
+            return False
+        j = o + 1
+        while j < c:
+            t = toks[j]
+            if t.kind == "punct" and t.text in ("(", "[", "{"):
+                j = closer.get(j, c)
+            elif t.kind == "punct" and t.text == ";" and j != c - 1:
+                return False
+            j += 1
+        return True
+
+    def assigned_between(names, lo, hi):
+        for j in range(lo, hi):
+            t = toks[j]
+            if t.kind == "ident" and t.text in names:
+                nx = toks[j + 1] if j + 1 < n else None
+                if nx is not None and nx.kind == "punct" and nx.text in ASSIGN:
+                    return True
+                pv = toks[j - 1]
+                if pv.kind == "ident" and pv.text in ("let", "mut") and not (j >= 2 and toks[j - 2].text == "&"):
+                    return True
+        return False
+
+    def owner_if(b, lo):
+        """b is a `{`: the `if` / `while` token whose block it opens (None when it is another kind of block)"""
+        k = b - 1
+        while k > lo:
+            t = toks[k]
+            if t.kind == "punct" and t.text in (")", "]"):
+                k = opener.get(k, lo)
+            elif t.kind == "punct" and t.text in ("{", "}", ";", "=>"):
+                return None
+            elif t.kind == "ident" and t.text in ("if", "while"):
+                return k if cond_until_brace(k)[1] == b else None
+            k -= 1
+        return None
+
+    def else_chain(start, lo, add):
+        """`start` is an `if` token or the `{` of an else block: every `if C { .. } else` in front of it contributes `in-else C`"""
+        cur = start
+        while cur - 2 > lo and toks[cur - 1].kind == "ident" and toks[cur - 1].text == "else" and toks[cur - 2].text == "}":
+            pb = opener.get(cur - 2)
+            if pb is None:
+                return
+            oi = owner_if(pb, lo)
+            if oi is None or toks[oi].text != "if":
+                return
+            cond, _ = cond_until_brace(oi)
+            add("in-else", cond, cur)
+            cur = oi
+
+    def arm_guard(arrow, lo, add):
+        """arrow is the `=>` of a match arm: `pat if C =>` contributes `arm C`"""
+        m = arrow - 1
+        while m > lo:
+            u = toks[m]
+            if u.kind == "punct" and u.text in (")", "]", "}"):
+                m = opener.get(m, lo)
+            elif u.kind == "punct" and u.text in ("{", ";", ",", "=>"):
+                return
+            elif u.kind == "ident" and u.text == "if":
+                add("arm", toks[m + 1:arrow], arrow)
+                return
+            m -= 1
+
+    for s in sites:
+        if s.at < 0 or s.fn_close < 0 or s.fn_close not in opener:
+            continue
+        fn_open = opener[s.fn_close]
+        site_ids = idents_of(s.expr)
+        found = []
+
+        def add(kind, cond, after):
+            if not cond or (cond[0].kind == "ident" and cond[0].text == "let"):
+                return
+            text = render(cond, 200)
+            shared = idents_of(text) & site_ids
+            if not shared or assigned_between(shared, after, s.at - 1):
+                return
+            g = f"{kind} {text}"
+            if g not in found:
+                found.append(g)
+
+        # enclosing blocks, innermost first
+        o = encl[s.at]
+        while o is not None and o >= fn_open:
+            if toks[o].text == "{":
+                # (a) the block itself is the body of `if C` / `while C`, or the else part of `if C { .. } else ..`
+                oi = owner_if(o, fn_open)
+                if oi is not None:
+                    cond, _ = cond_until_brace(oi)
+                    add("in-" + toks[oi].text, cond, o)
+                    if toks[oi].text == "if":
+                        else_chain(oi, fn_open, add)
+                else:
+                    else_chain(o, fn_open, add)
+                    if o - 1 > fn_open and toks[o - 1].text == "=>":
+                        arm_guard(o - 1, fn_open, add)      # `pat if C => { <site> }`
+                # (b) earlier statements of this block
+                j = o + 1
+                while j < s.at:
+                    t = toks[j]
+                    if t.kind == "punct" and t.text in ("(", "[", "{"):
+                        c = closer.get(j, n)
+                        if c >= s.at:
+                            break             # the bracket that (transitively) holds the site: handled one level further in
+                        j = c + 1
+                        continue
+                    if t.kind == "ident" and t.text in ("if", "while") and stmt_start(j):
+                        cond, b = cond_until_brace(j)
+                        if cond is not None and b in closer and closer[b] < s.at:
+                            c = closer[b]
+                            nxt = toks[c + 1] if c + 1 < n else None
+                            if t.text == "if" and not (nxt is not None and nxt.kind == "ident" and nxt.text == "else") and diverges(b):
+                                add("if", cond, c)
+                            elif t.text == "while" and not any(u.kind == "ident" and u.text == "break" for u in toks[b:c]):
+                                add("while", cond, c)
+                            j = c + 1
+                            continue
+                    if t.kind == "ident" and t.text == "assert" and stmt_start(j) and j + 2 < n and toks[j + 1].text == "!" and toks[j + 2].text == "(":
+                        c = closer.get(j + 2, n)
+                        if c < s.at:
+                            inner, depth = [], 0
+                            for u in toks[j + 3:c]:
+                                if u.kind == "punct" and u.text in ("(", "[", "{"):
+                                    depth += 1
+                                elif u.kind == "punct" and u.text in (")", "]", "}"):
+                                    depth -= 1
+                                elif u.kind == "punct" and u.text == "," and depth == 0:
+                                    break
+                                inner.append(u)
+                            add("assert", inner, c)
+                            j = c + 1
+                            continue
+                    j += 1
+            o = encl[o]
+        # (c') the site lies in the CONDITION of an `else if`: the earlier conditions of the chain are false
+        k = s.at - 1
+        while k > fn_open:
+            t = toks[k]
+            if t.kind == "punct" and t.text in (")", "]", "}"):
+                k = opener.get(k, fn_open)
+            elif t.kind == "punct" and t.text in ("{", ";"):
+                break
+            elif t.kind == "ident" and t.text == "if":
+                if cond_until_brace(k)[1] > s.at:
+                    else_chain(k, fn_open, add)
+                break
+            k -= 1
+        # (c) match arm `pat if C => <site>`: walk left from the site over balanced brackets to the `=>` of its arm
+        k = s.at - 1
+        while k > fn_open:
+            t = toks[k]
+            if t.kind == "punct" and t.text in (")", "]", "}"):
+                k = opener.get(k, fn_open)
+            elif t.kind == "punct" and t.text in ("{", ";", ","):
+                if t.text == "{" and k - 1 > fn_open and toks[k - 1].text == "=>":
+                    k -= 1
+                    continue
+                break
+            elif t.kind == "punct" and t.text == "=>":
+                m = k - 1
+                while m > fn_open:
+                    u = toks[m]
+                    if u.kind == "punct" and u.text in (")", "]", "}"):
+                        m = opener.get(m, fn_open)
+                    elif u.kind == "punct" and u.text in ("{", ";", ",", "=>"):
+                        break
+                    elif u.kind == "ident" and u.text == "if":
+                        add("arm", toks[m + 1:k], k)
+                        break
+                    m -= 1
+                break
+            k -= 1
+        s.guards = found
 
 
 def in_bound(toks, i):
@@ -715,7 +970,17 @@ def scan(repo):
 
 # ---------------------------------------------------------------------------------------------------------- classification
 
-CLASS_RE = re.compile(r"^(OPEN|test-only|range:.{8,}|model:[A-Za-z0-9_.'!?]+@[A-Za-z0-9_.'!?]+(?: .*)?)$", re.S)
+GUARD_KINDS = ("if", "while", "assert", "in-if", "in-while", "in-else", "arm")
+CLASS_RE = re.compile(r"^(OPEN|test-only|range:.{8,}|guard:(?:if|while|assert|in-if|in-while|in-else|arm) .+|model:[A-Za-z0-9_.'!?]+@[A-Za-z0-9_.'!?]+(?: .*)?)$", re.S)
+GUARD_SEP = " -- "
+
+
+def guard_of(cls, field):
+    """the dominating comparison a row claims: the text of a `guard:<kind> <condition> -- <remark>` class, or the row's
+    optional "guard" field (a `model:` / `range:` site that ALSO sits behind a recognised comparison)"""
+    if cls.startswith("guard:"):
+        return cls[len("guard:"):].split(GUARD_SEP)[0].strip()
+    return field
 
 
 def load_classes():
@@ -727,6 +992,7 @@ def load_classes():
     except ValueError as e:
         raise Unrecognised(f"translator/arith_sites.json: not valid JSON: {e}")
     table = {}
+    GUARDS.clear()
     reasons = doc.get("reasons", {})
     for file, fns in doc.get("sites", {}).items():
         for fn, rows in fns.items():
@@ -741,7 +1007,13 @@ def load_classes():
                         raise Unrecognised(f"translator/arith_sites.json: {key}: unknown shared reason {cls}")
                     cls = reasons[cls[1:]]
                 table[key] = cls
+                g = guard_of(cls, row.get("guard"))
+                if g:
+                    GUARDS[key] = g
     return doc, table
+
+
+GUARDS = {}     # site key -> claimed dominating comparison (filled by load_classes)
 
 
 def lean_names():
@@ -779,12 +1051,25 @@ def check(sites, table):
             old = cands.pop(0)
             moved.add(old)
             table[k] = table[old]          # the moved site inherits the class of the entry it is paired with
+            if old in GUARDS:
+                GUARDS[k] = GUARDS[old]    # … and its claimed guard, which has to be found again where the site is now
         else:
             s = have[k]
             problems.append(f"unclassified site serde_arrow/src/{s.file}:{s.line} in `{s.fn}` [{s.kind}] `{s.expr}` #{s.n}")
     for k in gone:
         if k not in moved:
             problems.append(f"arith_sites.json lists a site that no longer exists: {k[0]} `{k[1]}` [{k[2]}] `{k[3]}` #{k[4]}")
+    # a claimed guard has to be recognised in the sources: same function, dominating the site, diverging (see find_guards)
+    for k, g in GUARDS.items():
+        s = have.get(k)
+        if s is None:
+            continue
+        if g.split(" ")[0] not in GUARD_KINDS:
+            problems.append(f"malformed guard {g!r} for {k[0]} `{k[1]}` `{k[3]}`")
+        elif g not in s.guards:
+            seen_g = "; ".join(s.guards) if s.guards else "none"
+            problems.append(f"guard `{g}` of serde_arrow/src/{s.file}:{s.line} in `{s.fn}` [{s.kind}] `{s.expr}` #{s.n} is not recognised "
+                            f"in the sources (deleted, weakened, reordered or moved out of the function?); dominating comparisons found: {seen_g}")
     names = None
     for k, cls in table.items():
         if not CLASS_RE.match(cls):
@@ -813,11 +1098,17 @@ def render_lean(repo):
         raise Unrecognised("gen_arith_sites: the site inventory and translator/arith_sites.json disagree: " + "; ".join(problems[:12]) + more
                            + " — run `python3 translator/arith_sites.py --update` and classify the OPEN entries")
     kinds, classes = {}, {}
+    guard_kinds, guard_also = {}, 0
     model_refs = {}
     opens = []
     for s in sites:
         cls = table[s.key()]
         head = cls.split(":")[0] if not cls.startswith("model:") else "model"
+        if s.key() in GUARDS:
+            gk = GUARDS[s.key()].split(" ")[0]
+            guard_kinds[gk] = guard_kinds.get(gk, 0) + 1
+            if head != "guard":
+                guard_also += 1
         kind = s.kind.split(":")[0]
         kinds[kind] = kinds.get(kind, 0) + 1
         classes[head] = classes.get(head, 0) + 1
@@ -836,10 +1127,19 @@ def render_lean(repo):
     out.append("def siteKinds : List (String × Nat) := [" + ", ".join(f"({lstr(k)}, {v})" for k, v in sorted(kinds.items())) + "]")
     out.append("")
     out.append("/-- … and per class of translator/arith_sites.json (`model`: an explicit panic / error site of the Lean model covered by a")
-    out.append("theorem; `range`: cannot overflow / be out of range, with a one-line invariant; `test-only`; `OPEN`: not yet argued) -/")
+    out.append("theorem; `range`: cannot overflow / be out of range, with a one-line invariant; `guard`: behind a comparison of the same")
+    out.append("function that the generator recognised as dominating the site; `test-only`; `OPEN`: not yet argued) -/")
     out.append("def siteClasses : List (String × Nat) := [" + ", ".join(f"({lstr(k)}, {v})" for k, v in sorted(classes.items())) + "]")
     out.append("")
     out.append(f"def siteCount : Nat := {len(sites)}")
+    out.append("")
+    out.append("/-- sites whose safety comparison the generator found in the sources (class `guard:` or the `guard` field of a `model:` /")
+    out.append("`range:` row), per shape: `if C {fail}` before the site, `while C {..}` before it, `assert!(C)` before it, the site inside")
+    out.append("`if C {..}` / `while C {..}`, the site in a match arm `pat if C =>` -/")
+    out.append("def guardKinds : List (String × Nat) := [" + ", ".join(f"({lstr(k)}, {v})" for k, v in sorted(guard_kinds.items())) + "]")
+    out.append("")
+    out.append("/-- … of which rows of another class (`model:` mostly) that carry a recognised guard in addition -/")
+    out.append(f"def guardAlso : Nat := {guard_also}")
     out.append("")
     out.append("/-- the sites nobody has argued yet: (file, function, kind, expression) -/")
     out.append("def openSites : List (String × String × String × String) := [" + ",\n  ".join(
@@ -853,7 +1153,59 @@ def render_lean(repo):
     return "\n".join(out) + "\n"
 
 
-GENERATORS = [("ArithSites", ["C16"], render_lean)]
+# ---------------------------------------------------------------------------------------------------------- links
+
+READER_FILES = ("internal/deserialization/", "internal/utils/array_view_ext.rs", "internal/deserializer.rs")
+# kinds of sites that unwind by themselves (an out-of-range index, a `None`, a macro that panics): the model definition a
+# `model:` class names for such a site has to contain an explicit `panic` branch
+PANIC_KINDS = ("index", "slice", "call:unwrap", "call:expect", "macro")
+
+
+def model_links(table):
+    """the `model:<definition>@<theorem>` references of arith_sites.json: ref -> list of site keys (json order)"""
+    rows = {}
+    for k, cls in table.items():
+        if cls.startswith("model:") and CLASS_RE.match(cls):
+            rows.setdefault(cls[len("model:"):].split(" ")[0], []).append(k)
+    return rows
+
+
+def render_links(repo):
+    """Generated/ArithSiteLinks.lean: the `model:` references as data for the elaboration-time check of
+    lean/SaModel/Props/C16Links.lean.  Reads translator/arith_sites.json ONLY (not the Rust sources): no rewrite of the
+    crate can change this file, so — unlike the site inventory itself — the link check is an obligation, not a NOTE."""
+    _doc, table = load_classes()
+    for k, cls in table.items():
+        if not CLASS_RE.match(cls):
+            raise Unrecognised(f"translator/arith_sites.json: malformed class {cls!r} for {k[0]} `{k[1]}` `{k[3]}`")
+    rows = model_links(table)
+    out = []
+    out.append("-- generated by translator/run.py (arith_sites.py render_links) from translator/arith_sites.json — do not edit;")
+    out.append("-- ./check C16 / C17 regenerate it before every build.  Checked by lean/SaModel/Props/C16Links.lean.")
+    out.append("namespace SaModel.Generated.ArithSiteLinks")
+    out.append("")
+    out.append("/-- one row per `model:<definition>@<theorem>` reference of translator/arith_sites.json: definition, theorem,")
+    out.append("`reader` (a site of the row lies in the readers: the theorem has to NAME the definition in its statement),")
+    out.append("`unwinds` (a site of the row is an index / slice / unwrap / panicking macro: the definition has to contain a `panic`")
+    out.append("branch), and the sites `file | function | kind | expression | occurrence` that carry the reference -/")
+    out.append("def links : List (String × String × Bool × Bool × List String) := [")
+    items = []
+    for ref in sorted(rows):
+        d, th = ref.split("@")
+        keys = rows[ref]
+        reader = any(k[0].startswith(READER_FILES) for k in keys)
+        unwinds = any(k[2] in PANIC_KINDS for k in keys)
+        sites = ", ".join(lstr(f"{k[0]} | {k[1]} | {k[2]} | {k[3]} | #{k[4]}") for k in keys)
+        items.append(f"  ({lstr(d)}, {lstr(th)}, {'true' if reader else 'false'}, {'true' if unwinds else 'false'},\n    [{sites}])")
+    out.append(",\n".join(items) + "]")
+    out.append("")
+    out.append(f"def linkedSiteCount : Nat := {sum(len(v) for v in rows.values())}")
+    out.append("")
+    out.append("end SaModel.Generated.ArithSiteLinks")
+    return "\n".join(out) + "\n"
+
+
+GENERATORS = [("ArithSites", ["C16"], render_lean), ("ArithSiteLinks", ["C16", "C17"], render_links)]
 
 
 # ---------------------------------------------------------------------------------------------------------- maintenance
@@ -874,6 +1226,8 @@ def dump(doc, sites, table_raw):
         if s.n:
             row["n"] = s.n
         row["class"] = table_raw.get(s.key(), "OPEN")
+        if s.key() in RAW_GUARD_FIELDS:
+            row["guard"] = RAW_GUARD_FIELDS[s.key()]
         out_sites.setdefault(s.file, {}).setdefault(s.fn, []).append(row)
     doc = dict(doc)
     doc["sites"] = out_sites
@@ -900,12 +1254,19 @@ def dump(doc, sites, table_raw):
         f.write("\n".join(lines) + "\n")
 
 
+RAW_GUARD_FIELDS = {}
+
+
 def raw_table(doc):
     table = {}
+    RAW_GUARD_FIELDS.clear()
     for file, fns in doc.get("sites", {}).items():
         for fn, rows in fns.items():
             for row in rows:
-                table[(file, fn, row["kind"], row["expr"], row.get("n", 0))] = row.get("class", "OPEN")
+                key = (file, fn, row["kind"], row["expr"], row.get("n", 0))
+                table[key] = row.get("class", "OPEN")
+                if row.get("guard"):
+                    RAW_GUARD_FIELDS[key] = row["guard"]
     return table
 
 
@@ -930,6 +1291,16 @@ def main(argv):
             line = f"{s.file}:{s.line}\t{s.fn}\t{s.kind}\t{s.expr}\t#{s.n}\t{table.get(s.key(), 'OPEN')}"
             if pat in line:
                 print(line)
+        return 0
+    if argv and argv[0] == "--guards":
+        # the dominating comparisons the recogniser finds for each site (candidates for a `guard:` class / "guard" field)
+        pat = argv[1] if len(argv) > 1 else ""
+        table = raw_table(json.load(open(JSON_PATH, encoding="utf-8"))) if os.path.exists(JSON_PATH) else {}
+        for s in sites:
+            if s.guards:
+                line = f"{s.file}:{s.line}\t{s.fn}\t{s.kind}\t{s.expr}\t#{s.n}\t{table.get(s.key(), 'OPEN')[:40]}\t<= " + " | ".join(s.guards)
+                if pat in line:
+                    print(line)
         return 0
     try:
         render_lean(repo)
